@@ -31,7 +31,7 @@ CONF = {
     'C04': dict(
         inv=['InvC04', 'InvViews'],
         mc=[('affinity', ['Submit', 'RemoveApp', 'SetPrio', 'Down', 'Up', 'RemoveServer', 'AddServer'], None)],
-        gen=['affinity', 'affinity', 'topology'], weights=['pressure', 'pressure'],
+        gen=['affinity', 'solo', 'topology'], weights=['pressure', 'pressure'],
         focus=[('evict', 'gen_evict'), ('affinity', 'gen_evict'), ('evict2', 'gen_evict')],
         rule='a history counts when after some cycle a node is exactly at a finite affinity limit; distinct = distinct environment histories'),
     'C05': dict(
